@@ -42,6 +42,7 @@ pub struct Swarm {
     pub long_scalar: u32, // per-mille chance of capacity-sized words
     pub deep: u32,        // per-mille chance of a deep-nesting text (W7)
     pub many: u32,        // per-mille chance of a many-things text (W9)
+    pub large: u32,       // per-100000 chance of a large structured document (W10)
 }
 
 impl Swarm {
@@ -66,6 +67,7 @@ impl Swarm {
             long_scalar: *r.pick(&[0, 30, 100, 300]),
             deep: *r.pick(&[0, 2, 10, 40]),
             many: *r.pick(&[0, 2, 5, 20]),
+            large: *r.pick(&[0, 3, 10, 20]),
         }
     }
 }
@@ -261,6 +263,9 @@ impl<'a> Gen<'a> {
             truncate_chars(&mut t, 8192);
             return ("W7-deepnest", t);
         }
+        if self.r.below(100_000) < u64::from(self.sw.large) {
+            return ("W10-large", self.large_doc());
+        }
         if self.r.below(1000) < u64::from(self.sw.many) {
             let mut t = self.many_things();
             truncate_chars(&mut t, 8192);
@@ -291,6 +296,40 @@ impl<'a> Gen<'a> {
         };
         truncate_chars(&mut t, 8192);
         (name, t)
+    }
+
+    /// Draw a buffer capacity: half of the time from the capacities the code and the documentation
+    /// name, otherwise any value from the documented minimum up to a little past the string
+    /// input's 128, or a large one.
+    pub fn draw_capacity(r: &mut SplitMix64) -> usize {
+        match r.below(10) {
+            0..=4 => *r.pick(&[8usize, 9, 10, 11, 12, 16, 17, 24, 32, 33, 64, 128, 129, 1000]),
+            5..=8 => 8 + r.usize(133),
+            _ => *r.pick(&[255usize, 256, 257, 500, 4096, 65_536]),
+        }
+    }
+
+    /// W10: a large, regularly structured document (one of the instruction-clock families at
+    /// 10-250 kB), optionally followed by a small random tail: state that only builds up over a
+    /// long input (counters, positions, table sizes) is compared across environments and
+    /// interfaces, not only timed.
+    pub fn large_doc(&mut self) -> String {
+        let fam = *self.r.pick(&crate::scale::FAMILIES);
+        let size = *self.r.pick(&[10_000usize, 20_000, 40_000, 66_000, 70_000, 130_000, 250_000]);
+        let mut t = crate::scale::render(fam, size);
+        if self.r.chance(1, 3) {
+            if !t.ends_with('\n') {
+                t.push('\n');
+            }
+            let tail = match self.r.below(3) {
+                0 => self.corpus_doc(),
+                1 => self.rendered_stream(),
+                _ => self.many_things(),
+            };
+            t.push_str(if self.r.chance(1, 2) { "---\n" } else { "...\n" });
+            t.push_str(&tail);
+        }
+        t
     }
 
     /// W9: a count of things (distinct anchors, re-registered anchors, tags, documents, keys,
